@@ -695,3 +695,120 @@ func updateRecords(rec *recWriter, r *rand.Rand, dir string, seed int64, tier st
 		lr.stop()
 	}
 }
+
+// ------------------------------------------------------------------ C12: ordered shutdown while a removal is in flight
+
+// OrdShutMain: pcharness ordshut -seed S -tier T -out file
+// A dependent that is slow to terminate is being removed (scale down of one of its replicas, or an update that
+// drops or changes it) when an ordered project shutdown begins: the process it depends on must not be signalled
+// while that dependent is still alive.
+func OrdShutMain(args []string) {
+	fs := flag.NewFlagSet("ordshut", flag.ExitOnError)
+	seed := fs.Int64("seed", 1, "seed")
+	tier := fs.String("tier", "quick", "tier")
+	out := fs.String("out", "ordshut.ndjson", "output")
+	_ = fs.Parse(args)
+	f, _ := os.Create(*out)
+	rec := &recWriter{w: bufio.NewWriterSize(f, 1<<20)}
+	dir, _ := os.MkdirTemp("", "pcordshut")
+	defer os.RemoveAll(dir)
+	r := rand.New(rand.NewSource(*seed))
+	rounds := 40
+	if *tier == "thorough" {
+		rounds = 400
+	}
+	for k := 0; k < rounds; k++ {
+		mode := []string{"scaledown", "remove", "change", "none"}[r.Intn(4)]
+		reps := 1
+		if mode == "scaledown" {
+			reps = 2 + r.Intn(2)
+		}
+		db := AProc{Name: "db", Opts: []KV{{"command", "run db"}}}
+		wk := AProc{Name: "worker", Opts: []KV{{"command", "run worker v0"}}, Deps: []KV{{"db", "process_started"}}, Replicas: reps}
+		other := AProc{Name: "other", Opts: []KV{{"command", "run other"}}}
+		mkFile := func(procs ...AProc) string {
+			af := AFile{Procs: procs}
+			return writeFile(dir, fmt.Sprintf("ordshut-%d.yaml", r.Int63()), af.Render())
+		}
+		project, err := load([]string{mkFile(db, wk, other)})
+		if err != nil {
+			continue
+		}
+		app.VerifReset()
+		fakecmd.Reset()
+		app.VerifTraceFn, app.VerifGateFn = nil, nil
+		app.VerifBackoffFn = func(proc string, inst int64, d time.Duration) (time.Duration, bool) { return d / 50, true }
+		lat := 10 + r.Intn(25) // ticks the worker needs to die after its stop signal
+		metaMu := sync.Mutex{}
+		meta := map[int64]string{}
+		app.VerifCommanderFn = func(info app.VerifLaunchInfo) command.Commander {
+			b := fakecmd.Behaviour{ExitMode: "signal", SigCode: -1}
+			if info.Conf.Name == "worker" {
+				b.StopLatency = lat
+			}
+			c := fakecmd.New(info.Proc, info.Inst, info.Attempt, nil, b)
+			metaMu.Lock()
+			meta[c.Serial] = info.Conf.Name
+			metaMu.Unlock()
+			return c
+		}
+		runner, err := app.NewProjectRunner((&app.ProjectOpts{}).WithProject(project).WithIsTuiOn(true).WithOrderedShutDown(true))
+		if err != nil {
+			continue
+		}
+		runDone := make(chan struct{})
+		go func() { _ = runner.Run(); close(runDone) }()
+		settle()
+		// the removal, in its own goroutine (it waits for the worker to die)
+		remDone := make(chan struct{})
+		go func() {
+			defer close(remDone)
+			switch mode {
+			case "scaledown":
+				_ = runner.ScaleProcess(fmt.Sprintf("worker-%d", r.Intn(reps)), reps-1)
+			case "remove":
+				if p2, e2 := load([]string{mkFile(db, other)}); e2 == nil {
+					_, _ = runner.UpdateProject(p2)
+				}
+			case "change":
+				wk2 := wk
+				wk2.Opts = []KV{{"command", "run worker v1"}}
+				if p2, e2 := load([]string{mkFile(db, wk2, other)}); e2 == nil {
+					_, _ = runner.UpdateProject(p2)
+				}
+			}
+		}()
+		time.Sleep(time.Duration(200+r.Intn(6000)) * time.Microsecond)
+		shutSeq := fakecmd.NextSeq()
+		shutDone := make(chan struct{})
+		go func() { _ = runner.ShutDownProject(); close(shutDone) }()
+		shutReturned, runReturned := true, true
+		select {
+		case <-shutDone:
+		case <-time.After(5 * time.Second):
+			shutReturned = false
+		}
+		select {
+		case <-runDone:
+		case <-time.After(3 * time.Second):
+			runReturned = false
+		}
+		select {
+		case <-remDone:
+		case <-time.After(3 * time.Second):
+		}
+		cmds := []map[string]any{}
+		metaMu.Lock()
+		for _, c := range fakecmd.All() {
+			cmds = append(cmds, map[string]any{"serial": c.Serial, "base": meta[c.Serial], "rname": c.Proc, "alive": c.Alive, "signalled": c.Signalled,
+				"launchSeq": c.LaunchSeq, "exitSeq": c.ExitSeq, "sigSeq": c.SigSeq})
+		}
+		metaMu.Unlock()
+		rec.put(map[string]any{"kind": "ordshut", "id": fmt.Sprintf("ordshut-%d-%d", *seed, k), "mode": mode, "replicas": reps, "latencyTicks": lat,
+			"edges": [][]string{{"worker", "db"}}, "shutSeq": shutSeq, "shutReturned": shutReturned, "runReturned": runReturned, "cmds": cmds})
+		fakecmd.KillAll()
+	}
+	rec.w.Flush()
+	f.Close()
+	fmt.Printf("{\"records\":%d,\"histories\":%d}\n", rec.n, rec.n)
+}
